@@ -295,6 +295,29 @@ var fallible = []string{"[0]", "[1]", "[-1]", "[5]", "match a", "!match a", "reg
 func (g *progGen) pipeline() (string, bool) {
 	g.feat["pipeline"]++
 	arrow := func() string { return rapid.SampledFrom([]string{" -> ", " | ", " -> "}).Draw(g.t, "arrow") }
+	// A last stage that does not read its stdin (`out`), fed by a stage that
+	// keeps writing to stderr for a while: the statement is only finished when
+	// every stage has finished, so what follows must come after the upstream
+	// stage's output whatever the schedule.
+	if g.pick("nonconsuming-tail", 6) == 0 {
+		g.feat["nonconsuming-tail"]++
+		var src string
+		switch g.pick("nctsrc", 3) {
+		case 0:
+			src = "err " + g.newTag()
+		case 1:
+			if g.nfuncs > 0 {
+				g.feat["call"]++
+				src = fmt.Sprintf("%s %s", g.fname(g.pick("fn", g.nfuncs)), g.newTag())
+				break
+			}
+			fallthrough
+		default:
+			n := rapid.SampledFrom([]int{3, 20, 60}).Draw(g.t, "nctloop")
+			src = fmt.Sprintf("a [1..%d] -> foreach x9 { err \"%s:$x9\" }", n, g.newTag())
+		}
+		return src + arrow() + "out " + g.newTag(), true
+	}
 	var b strings.Builder
 	stderr := false
 	switch g.pick("psrc", 6) {
